@@ -93,3 +93,37 @@ class GcodeTable(Model):
 
     def read(self, key):
         return self
+
+
+class Settings(Model):
+    """self._settings (plugin settings) and octoprint.settings.settings() (global settings): get / get_boolean /
+    getBoolean of a path return the value the pre-state builder stored for that path -- a distinct symbolic value per key,
+    so that reading the wrong key is visible (assumption A3: the framework hands back what is configured)."""
+
+    clsname = "Settings"
+
+    def __init__(self, values):
+        self.values = dict(values)
+        self.oid = next_oid()
+
+    def call_method(self, interp, name, args, kwargs, node):
+        if name in ("get", "get_boolean", "getBoolean", "get_int", "get_float") and len(args) == 1:
+            path = args[0]
+            items = path.items if hasattr(path, "items") and not isinstance(path, dict) else path
+            if not all(isinstance(x, str) for x in items):
+                raise Unsupported("settings path %r" % (path,), node)
+            key = ".".join(items)
+            if key not in self.values:
+                raise Unsupported("setting %r is not part of the contract's pre-state" % key, node)
+            interp.ctx.assumed.add("A3:settings.get(path) returns the configured value of that path")
+            return self.values[key]
+        raise Unsupported("settings.%s" % name, node)
+
+    def copy(self, memo=None):
+        return self
+
+    def struct_eq(self, other):
+        return self is other
+
+    def read(self, key):
+        return self
